@@ -302,7 +302,9 @@ Fixpoint set_civil_limits (abbrs : list Z) (types : list ttype) : res (list ttyp
       OK (mkTT (tt_off ty) (al_cs mx) (al_cs mn) (tt_isdst ty) (tt_abbr ty) :: r)
   end.
 
-(* ---- default-type search (:713-726); index is uint_fast8_t ---- *)
+(* ---- default-type search (:713-726).  As in /repo after the C12 "fix:"
+   commit 354404f the index is a size_t (the pre-fix 8-bit index, which could
+   loop forever, is in History.v). ---- *)
 Fixpoint dflt_down (fuel : nat) (types : list ttype) (index : Z) : res Z :=
   match fuel with
   | O => Err Fuel
@@ -311,6 +313,8 @@ Fixpoint dflt_down (fuel : nat) (types : list ttype) (index : Z) : res Z :=
       do ty <- nth_res types index ;;
       if tt_isdst ty then dflt_down f types (index - 1) else OK index
   end.
+(* walk up from [index] to the first standard type or to typecnt; the fuel
+   given by the caller is length types + 1, which always suffices *)
 Fixpoint dflt_up (fuel : nat) (types : list ttype) (typecnt index : Z) : res Z :=
   match fuel with
   | O => Err Fuel
@@ -392,8 +396,8 @@ Definition load_bytes (src : list Z) : res (option zone) :=
             (if seen_type_0 && negb (h_timecnt hdr =? 0) then
                do t0 <- nth_res types0 0 ;;
                do i1 <- (if tt_isdst t0 then dflt_down 257 types0 (nthZ idxs 0) else OK 0) ;;
-               do i2 <- dflt_up 258 types0 (h_typecnt hdr) i1 ;;
-               OK (if negb (i2 =? h_typecnt hdr) then i2 else 0)
+               do i2 <- dflt_up (S (length types0)) types0 (h_typecnt hdr) i1 ;;
+               OK (if negb (i2 =? h_typecnt hdr) && (i2 <=? 255) then i2 else 0)
              else OK 0) ;;
           let bp3 := skipn (typecnt * 6) bp2 in
           let abbrs := firstn (Z.to_nat (h_charcnt hdr)) bp3 in
